@@ -33,6 +33,10 @@ class Verdict:
         self.samples = []
         self.notes = []
         self.known = [k for k in load_known() if k.get("property") == prop]
+        d = os.path.join(REPLAYS, prop)  # replay files of earlier runs are stale
+        if os.path.isdir(d):
+            for f in os.listdir(d):
+                os.unlink(os.path.join(d, f))
         self.sig_seen = {}
 
     # -- findings ---------------------------------------------------------
